@@ -2701,9 +2701,23 @@ class Group(System):
 
             if mode == 'rev':
                 self._transfer('linear', mode)
-                for s in self._relevance.filter(self._subsystems_myproc, relevant=False):
-                    # zero out dvecs of irrelevant subsystems
-                    s._doutputs.set_val(0.0)
+                self._zero_irrelevant_doutputs()
+
+    def _zero_irrelevant_doutputs(self):
+        """
+        Zero out the linear output vectors of irrelevant subsystems after a reverse transfer.
+
+        The reverse transfer of this group can write into the outputs of irrelevant systems that
+        are nested inside of relevant subgroups (e.g. from a matrix free component that does not
+        know which of its inputs are relevant), so the subgroups are visited too.
+        """
+        for s in self._relevance.filter(self._subsystems_myproc, relevant=False):
+            s._doutputs.set_val(0.0)
+
+        if self._relevance._active:
+            for s in self._relevance.filter(self._subsystems_myproc, relevant=True):
+                if isinstance(s, Group):
+                    s._zero_irrelevant_doutputs()
 
     def _apply_fd_rev_xfer_correction(self):
         """
